@@ -148,6 +148,7 @@ func gRunSeq(res *engine.Result, c gCase, ops []int, ci int) (interface{}, bool)
 		must(w1.Exec("commit"))
 	}
 	model := map[int]*gModelRow{} // global (all committed statements), single monotone clock
+	reclaimed := map[int]bool{}   // keys whose delete marker an (earlier) vacuum has legitimately reclaimed
 	type rec struct {
 		rows    engine.Rows
 		created time.Time
@@ -179,10 +180,26 @@ func gRunSeq(res *engine.Result, c gCase, ops []int, ci int) (interface{}, bool)
 	}
 	where = fmt.Sprintf("epn=%d ops=%v", c.EPN, names)
 	vacuumOK := func(cl *engine.Client, cut time.Time) bool {
+		// which delete markers does the vacuuming connection hold? (those older than the cutoff are reclaimed)
+		held := map[int]bool{}
+		if d, err := engine.LiveDump(cl.Tab); err == nil {
+			for _, e := range d.Entries {
+				if e.Deleted {
+					var k int
+					fmt.Sscanf(e.Key, "i%d", &k)
+					held[k] = true
+				}
+			}
+		}
 		verr, err := cl.Vacuum(cut)
 		if err != nil || verr != "" {
 			viol("c09", "vacuum-failed", "s3db_vacuum(%s) failed: %v %s", engine.TS(cut), err, verr)
 			return false
+		}
+		for k, m := range model {
+			if !m.live && m.delTime.Before(cut) && held[k] {
+				reclaimed[k] = true
+			}
 		}
 		return true
 	}
@@ -220,6 +237,7 @@ func gRunSeq(res *engine.Result, c gCase, ops []int, ci int) (interface{}, bool)
 			switch action[:6] {
 			case "insert":
 				*m = gModelRow{live: true, b: fmt.Sprintf("i%d", step), c: fmt.Sprintf("c%d", step)}
+				delete(reclaimed, k)
 			case "update":
 				// w2 may be stale: its update applies to the row as the merge will see it
 				if m.live {
@@ -312,6 +330,10 @@ func gRunSeq(res *engine.Result, c gCase, ops []int, ci int) (interface{}, bool)
 		}
 		graph[n] = vi
 	}
+	reclaimedBefore := map[int]bool{}
+	for k := range reclaimed {
+		reclaimedBefore[k] = true
+	}
 	mark := w.B.LogLen()
 	if !vacuumOK(w1, cut) {
 		return nil, true
@@ -386,8 +408,8 @@ func gRunSeq(res *engine.Result, c gCase, ops []int, ci int) (interface{}, bool)
 	}
 	for k := range diffKeys {
 		m := model[k]
-		reclaimed := m != nil && !m.live && m.delTime.Before(cut)
-		if !reclaimed {
+		gone := (m != nil && !m.live && m.delTime.Before(cut)) || reclaimedBefore[k]
+		if !gone {
 			viol("c09", "fresh-connection-rows-changed", "a connection opened after the vacuum sees %v, one opened just before it saw %v; key %d differs although no delete marker of it is older than the cutoff", postFresh, preFresh, k)
 			break
 		}
@@ -466,7 +488,7 @@ func gRunSeq(res *engine.Result, c gCase, ops []int, ci int) (interface{}, bool)
 			}
 			// markers at/after the cutoff must still be there
 			for k, m := range model {
-				if m.live || m.delTime.Before(cut) {
+				if m.live || m.delTime.Before(cut) || reclaimedBefore[k] {
 					continue
 				}
 				inOwn := false // only if w1 had merged that delete
@@ -598,7 +620,7 @@ func gRunSeq(res *engine.Result, c gCase, ops []int, ci int) (interface{}, bool)
 		w.MakeCurrent()
 		if err == nil {
 			for k, m := range model {
-				if m.live || m.delTime.Before(cut) {
+				if m.live || m.delTime.Before(cut) || reclaimedBefore[k] {
 					continue
 				}
 				for _, r := range rows {
